@@ -25,6 +25,9 @@ func checkC01(c *Ctx) Meta {
 
 	c.Rule("C01-CHAIN", "what is stored decrypts with what is stored beside it: in create and in import the key that seals the master HD key is the very crypto key whose bytes are sealed into cpriv, the master key that seals those bytes is the one whose parameters are stored as mpriv, and the same crypto key is handed to createManagerKeyScope; the parsed master key keeps the decoded 32 bytes", 7)
 	c01Chain(c)
+	c.Rule("C01-LOCK", "export, import and delete run their store transactions under the manager lock, so an export is a consistent snapshot (no passphrase change commits between its reads) and import/delete see one keystore", 3)
+	checkTxUnderManagerLock(c, "C01-LOCK", []string{"ExportKeystore", "ImportKeystore", "DeleteKeystore"})
+	checkLoopAddrEscape(c, "C01-BRANCH", []*ssa.Function{c.Fn("poc/wallet/keystore", "createManagerKeyScope")})
 	c01Fields(c)
 	c01Branch(c)
 	c01Auth(c)
@@ -293,6 +296,12 @@ func branchOfValue(c *Ctx, v ssa.Value) string {
 func c01Branch(c *Ctx) {
 	rule := "C01-BRANCH"
 	checkBranchPolarity(c, rule)
+	checkImportLoopPolarity(c, rule)
+}
+
+// checkImportLoopPolarity: each re-derivation loop of import (bounded by one branch's counter) derives
+// from that branch's key and records that branch (shared by C01 and C06).
+func checkImportLoopPolarity(c *Ctx, rule string) {
 	_, _, cmks := importFuncs(c, rule)
 	if cmks == nil {
 		return
@@ -732,23 +741,5 @@ func c01Chain(c *Ctx) {
 			c.Bad(rule, key, c.Pos(ckEnc.Pos()), "the private crypto key is encrypted under a master key whose parameters are not the ones stored: no passphrase opens the keystore")
 		}
 	}
-	if f := c.MustFn(rule, "poc/wallet/keystore/hdkeychain", "NewKeyFromString"); f != nil {
-		key := "NewKeyFromString:keeps-decoded-bytes"
-		bad := false
-		n := 0
-		for _, cl := range callsIn(f, pkgHD+".NewExtendedKey") {
-			n++
-			if backSlice(cl.Call.Args[1]).hasCallTo("(*math/big.Int).Bytes") {
-				bad = true
-			}
-		}
-		switch {
-		case n == 0:
-			c.Bad(rule, key, c.Pos(f.Pos()), "reason=anchor-missing: NewExtendedKey call")
-		case bad:
-			c.Bad(rule, key, c.Pos(f.Pos()), "the parsed private key is re-encoded through big.Int.Bytes(): a key with a leading zero byte comes back shorter than 32 bytes and its hardened children (hence the imported keystore's id and every address) differ from the exported wallet's")
-		default:
-			c.OK(rule, key, c.Pos(f.Pos()), "the key handed to NewExtendedKey is the decoded payload itself")
-		}
-	}
+	checkParsedKeyWidth(c, rule)
 }
